@@ -37,6 +37,11 @@ type chanRun struct {
 	Reqs      []reqPlan `json:"reqs"`
 	LatencyUs int       `json:"latency_us"`
 	Tail      int       `json:"tail_requests"` // requests issued afterwards that must all succeed
+	// Renews: token renewals (OpenSecureChannel requests) issued one after the
+	// other once the ordinary calls are done; the scripted server answers each
+	// relative to the channel's request time-out like an ordinary request
+	Renews         []reqPlan `json:"renews,omitempty"`
+	RenewTimeoutMs int       `json:"renew_timeout_ms,omitempty"`
 
 	mu        sync.Mutex
 	delivered map[float64]int // marker -> number of handler invocations
@@ -55,8 +60,13 @@ func (r *chanRun) setup(s *sim.Sim, mode string) {
 	if mode == "c18" && p.Chance(1, 5) {
 		n = 16 + p.Intn(48)
 	}
+	spread := p.Chance(1, 3)
 	for i := 0; i < n; i++ {
 		q := reqPlan{Action: "answer", TimeoutMs: sim.Pick(p, 500, 1000, 2000), StartMs: p.Intn(50), Chunks: 1}
+		if spread {
+			// calls keep starting while earlier ones time out, are cancelled or get late answers
+			q.StartMs = p.Intn(3500)
+		}
 		if p.Chance(1, 6) {
 			q.Chunks = 2 + p.Intn(3)
 		}
@@ -98,6 +108,34 @@ func (r *chanRun) setup(s *sim.Sim, mode string) {
 			}
 		}
 		r.Reqs = append(r.Reqs, q)
+	}
+	if mode == "c19" && p.Chance(1, 2) {
+		r.RenewTimeoutMs = sim.Pick(p, 500, 1000)
+		T := r.RenewTimeoutMs + 250
+		for i, n := 0, 1+p.Intn(3); i < n; i++ {
+			q := reqPlan{Action: "answer", TimeoutMs: r.RenewTimeoutMs, Chunks: 1}
+			switch p.Intn(9) {
+			case 0:
+				q.DelayMs = p.Intn(T / 2)
+			case 1, 2:
+				q.DelayMs, q.Tie = T, 1
+			case 3:
+				q.DelayMs, q.Tie = T, 2
+			case 4:
+				q.DelayMs, q.Tie = T, 3
+			case 5:
+				q.DelayMs = T + 1 + p.Intn(500)
+			case 6:
+				q.Action = "drop"
+			case 7:
+				q.DelayMs = p.Intn(T)
+				q.CancelMs = 1 + p.Intn(T)
+			default:
+				q.Action = "drop"
+				q.CancelMs = 1 + p.Intn(T)
+			}
+			r.Renews = append(r.Renews, q)
+		}
 	}
 }
 
@@ -179,6 +217,35 @@ func (r *chanRun) Main(s *sim.Sim) {
 		}()
 	}
 
+	renewIdx := -1 // index of the renewal being answered (renewals are issued one at a time)
+	srv.OnOpen = func(c *rawSrvConn, reqID uint32, req *ua.OpenSecureChannelRequest) bool {
+		if req.RequestType != ua.SecurityTokenRequestTypeRenew || renewIdx < 0 || renewIdx >= len(r.Renews) {
+			return true
+		}
+		q := r.Renews[renewIdx]
+		delay := time.Duration(q.DelayMs) * time.Millisecond
+		switch q.Tie {
+		case 2:
+			delay -= time.Nanosecond
+		case 3:
+			delay += time.Nanosecond
+		}
+		delay -= 2 * s.Net.DefLatency
+		if delay < 0 {
+			delay = 0
+		}
+		go func() {
+			if delay > 0 {
+				time.Sleep(delay)
+			}
+			s.Yield("rawsrv.answer-open")
+			if q.Action != "drop" {
+				c.AnswerOpen(reqID, req)
+			}
+		}()
+		return false
+	}
+
 	ctx := context.Background()
 	conn, err := uacp.Dial(ctx, srvURL)
 	if err != nil {
@@ -187,6 +254,9 @@ func (r *chanRun) Main(s *sim.Sim) {
 	}
 	errch := make(chan error, 64)
 	cfg := &uasc.Config{SecurityPolicyURI: ua.SecurityPolicyURINone, SecurityMode: ua.MessageSecurityModeNone, Lifetime: 3600000, RequestTimeout: 10 * time.Second, RequestIDSeed: r.Seed}
+	if r.RenewTimeoutMs > 0 {
+		cfg.RequestTimeout = time.Duration(r.RenewTimeoutMs) * time.Millisecond
+	}
 	sc, err := uasc.NewSecureChannel(srvURL, conn, cfg, errch)
 	if err == nil {
 		err = sc.Open(ctx)
@@ -325,9 +395,101 @@ func (r *chanRun) Main(s *sim.Sim) {
 		s.Fail("C19", "slot-leak", "pending-slot-not-released", "%d response handlers are still registered after every call returned (before: %d)", n, base)
 		return
 	}
-	// the channel still works: later requests all succeed
+	// token renewals whose response is early, late, exactly on time or never comes
+	for i, q := range r.Renews {
+		renewIdx = i
+		cctx, cancel := ctx, context.CancelFunc(func() {})
+		if q.CancelMs > 0 {
+			cctx, cancel = context.WithTimeout(ctx, time.Duration(q.CancelMs)*time.Millisecond)
+		}
+		t0 := s.Now()
+		ret := make(chan error, 1)
+		go func() { ret <- sc.Renew(cctx) }()
+		var rerr error
+		select {
+		case rerr = <-ret:
+		case <-time.After(30 * time.Second):
+			cancel()
+			s.Fail("C19", "request-never-returns", "renew-blocked", "Renew %d (%+v) did not return within 30 s (request time-out %d ms)\n%s", i, q, r.RenewTimeoutMs, clientStacks())
+			return
+		}
+		cancel()
+		took := s.Now() - t0
+		limit := time.Duration(q.TimeoutMs)*time.Millisecond + 250*time.Millisecond
+		if q.CancelMs > 0 && time.Duration(q.CancelMs)*time.Millisecond < limit {
+			limit = time.Duration(q.CancelMs) * time.Millisecond
+		}
+		if took > limit {
+			s.Fail("C19", "late-return", "renew-returned-after-timeout-plus-leniency", "Renew %d (%+v) returned after %v, limit %v, err=%v", i, q, took, limit, rerr)
+			return
+		}
+		switch {
+		case rerr == nil:
+			s.Probe("renew-ok")
+		case q.Action == "answer" && q.Tie == 0 && q.CancelMs == 0 && q.DelayMs < q.TimeoutMs:
+			s.Fail("C19", "response-lost", "timely-renew-response-not-delivered", "Renew %d failed with %v although its response was sent after %d ms (time-out %d ms)", i, rerr, q.DelayMs, q.TimeoutMs)
+			return
+		default:
+			s.Probe("renew-timeout-or-cancel")
+		}
+		if q.Tie != 0 {
+			s.Nontrivial()
+			if rerr == nil {
+				s.Probe(fmt.Sprintf("renew-tie%d-response-won", q.Tie))
+			} else {
+				s.Probe(fmt.Sprintf("renew-tie%d-timeout-won", q.Tie))
+			}
+		}
+		// a late answer may still be on its way: let it arrive before the next step
+		time.Sleep(time.Duration(sim.Pick(s.Plan, 0, 1, 800)) * time.Millisecond)
+	}
+	renewIdx = -1
+	if len(r.Renews) > 0 {
+		time.Sleep(2 * time.Second)
+		if n := sc.VerifHandlerCount(); n != base {
+			s.Fail("C19", "slot-leak", "pending-slot-not-released-after-renew", "%d response handlers are still registered after the renewals returned (before: %d)", n, base)
+			return
+		}
+	}
+	// the channel still works: a burst of concurrent requests, each of which must get its own answer ...
+	{
+		nb := len(r.Reqs)
+		bouts := make([]outcome, nb)
+		var bwg sync.WaitGroup
+		for k := 0; k < nb; k++ {
+			bwg.Add(1)
+			go func(k int) {
+				defer bwg.Done()
+				s.Yield("caller.burst")
+				bouts[k] = call(float64(2000+k), 2*time.Second, ctx)
+			}(k)
+		}
+		bdone := make(chan struct{})
+		go func() { bwg.Wait(); close(bdone) }()
+		select {
+		case <-bdone:
+		case <-time.After(30 * time.Second):
+			s.Fail("C19", "request-never-returns", "burst-call-blocked", "requests issued after the time-outs did not return within 30 s\n%s", clientStacks())
+			return
+		}
+		for k, o := range bouts {
+			if o.err == nil && o.marker != float64(2000+k) {
+				s.Fail("C18", "wrong-response", "foreign-response-delivered-after-timeouts", "request with marker %v issued after the time-outs was handed the response carrying marker %v", float64(2000+k), o.marker)
+				return
+			}
+			if o.err != nil {
+				s.Fail("C19", "channel-wedged", "later-request-fails", "request issued after the time-outs failed: err=%v (marker %v)\n%s", o.err, float64(2000+k), clientStacks())
+				return
+			}
+		}
+	}
+	// ... and a few one after the other
 	for k := 0; k < r.Tail; k++ {
 		o := call(float64(1000+k), 2*time.Second, ctx)
+		if o.err == nil && o.marker != float64(1000+k) {
+			s.Fail("C18", "wrong-response", "foreign-response-delivered-after-timeouts", "request with marker %v issued after the time-outs was handed the response carrying marker %v", float64(1000+k), o.marker)
+			return
+		}
 		if o.err != nil || o.marker != float64(1000+k) {
 			s.Fail("C19", "channel-wedged", "later-request-fails", "request issued after the time-outs failed: err=%v marker=%v (want %v)\n%s", o.err, o.marker, float64(1000+k), clientStacks())
 			return
